@@ -13,9 +13,11 @@ import (
 	"bytes"
 	"compress/gzip"
 	"fmt"
+	"io"
 	"net/http"
 	"net/http/httptest"
 	"net/url"
+	"strconv"
 	"strings"
 	"sync"
 	"time"
@@ -77,6 +79,10 @@ type Dir struct {
 	Lookup  func(n uint64) (StateFile, bool)
 	Current uint64            // newest sequence number (served as state.txt / state.yaml)
 	Data    map[uint64][]byte // sequence-numbered data files (already gzip'd)
+	// NotFoundBody is sent with the 404 of a missing file (real servers send an error page).
+	// Empty means no body, which lets a client reuse its connection even if it does not read
+	// error responses to the end.
+	NotFoundBody []byte
 }
 
 // Get returns the state file of sequence n, if present.
@@ -113,6 +119,10 @@ type Planet struct {
 	epoch      int64 // epoch of the loaded directory
 	closed     bool  // Observed has been called: the lookup of this epoch is over
 	late       int64 // requests that arrived for a finished epoch
+	step       int64 // directory version inside the epoch (Swap), stamped on requests by Client
+	handed     int64 // response bodies handed to the caller through Client
+	bclosed    int64 // ... of which closed
+	client     *http.Client
 	dir        *Dir
 	decPrefix  string            // Prefix with its percent escapes decoded
 	bodies     map[uint64][]byte // rendered state files of dir (they can be 64 KiB)
@@ -158,6 +168,8 @@ func (p *Planet) Load(d *Dir, budget int, prefix string) {
 	}
 	p.dir, p.budget, p.count = d, budget, 0
 	p.epoch++
+	p.step = 0
+	p.handed, p.bclosed = 0, 0
 	p.closed = false
 	p.Prefix = prefix
 	p.decPrefix = prefix
@@ -168,6 +180,93 @@ func (p *Planet) Load(d *Dir, budget int, prefix string) {
 	p.unexpected = nil
 	p.seqSeen = map[uint64]int{}
 	p.mu.Unlock()
+}
+
+// Swap replaces the directory inside the running epoch (the base URL stays the same): the
+// directory of a live server advances between two calls on one Datasource. Requests carry the
+// step they were issued in (see Client), so a straggler of the previous step is not judged.
+func (p *Planet) Swap(d *Dir, budget int) {
+	p.mu.Lock()
+	p.bodies = map[uint64][]byte{}
+	p.dir, p.budget, p.count = d, budget, 0
+	p.step++
+	p.handed, p.bclosed = 0, 0
+	p.closed = false
+	p.log = nil
+	p.unexpected = nil
+	p.seqSeen = map[uint64]int{}
+	p.mu.Unlock()
+}
+
+const stepHeader = "X-Verif-Step"
+
+// tracker is the RoundTripper of the clients the harness gives to the library: it stamps the
+// current step on every request and counts the response bodies it hands out and their Close.
+type tracker struct {
+	p    *Planet
+	base http.RoundTripper
+}
+
+type trackedBody struct {
+	io.ReadCloser
+	p    *Planet
+	step int64
+	once sync.Once
+}
+
+func (b *trackedBody) Close() error {
+	b.once.Do(func() {
+		b.p.mu.Lock()
+		if b.step == b.p.step {
+			b.p.bclosed++
+		}
+		b.p.mu.Unlock()
+	})
+	return b.ReadCloser.Close()
+}
+
+func (t *tracker) RoundTrip(req *http.Request) (*http.Response, error) {
+	t.p.mu.Lock()
+	step := t.p.step
+	t.p.mu.Unlock()
+	r2 := req.Clone(req.Context())
+	r2.Header.Set(stepHeader, strconv.FormatInt(step, 10))
+	resp, err := t.base.RoundTrip(r2)
+	if resp != nil && resp.Body != nil {
+		t.p.mu.Lock()
+		if step == t.p.step {
+			t.p.handed++
+		}
+		t.p.mu.Unlock()
+		resp.Body = &trackedBody{ReadCloser: resp.Body, p: t.p, step: step}
+	}
+	return resp, err
+}
+
+// Client is the http.Client to configure the library with.
+func (p *Planet) Client() *http.Client {
+	p.mu.Lock()
+	defer p.mu.Unlock()
+	if p.client == nil {
+		p.client = &http.Client{Transport: &tracker{p: p, base: p.Server.Client().Transport}}
+	}
+	return p.client
+}
+
+// LimitedClient is a client that may hold at most maxConns connections to the server at a
+// time: a response body that is never closed keeps its connection, so a caller that leaks
+// bodies stops making progress. The caller must call CloseIdleConnections when done.
+func (p *Planet) LimitedClient(maxConns int) *http.Client {
+	tr := &http.Transport{MaxConnsPerHost: maxConns, MaxIdleConnsPerHost: maxConns}
+	return &http.Client{Transport: &tracker{p: p, base: tr}}
+}
+
+// Bodies returns how many response bodies were handed to the caller since Load/Swap and how
+// many of them have been closed.
+func (p *Planet) Bodies() (handed, closed int64) {
+	p.mu.Lock()
+	defer p.mu.Unlock()
+	return p.handed, p.bclosed
 }
 
 // Observed ends the epoch of the loaded directory and returns what the server saw since Load: number of requests, the log, the paths
@@ -230,6 +329,12 @@ func (p *Planet) handle(w http.ResponseWriter, r *http.Request) {
 	if e, rest, ok := splitEpoch(path); ok {
 		if e != p.epoch || p.closed {
 			p.late++
+			w.Header().Set("Content-Length", "0")
+			w.WriteHeader(http.StatusGone)
+			return
+		}
+		if h := r.Header.Get(stepHeader); h != "" && h != strconv.FormatInt(p.step, 10) {
+			p.late++ // issued before the directory advanced
 			w.Header().Set("Content-Length", "0")
 			w.WriteHeader(http.StatusGone)
 			return
@@ -303,7 +408,7 @@ func (p *Planet) answer(r *http.Request, path string) (int, []byte) {
 	if rest == curName {
 		st, ok := d.Get(d.Current)
 		if !ok {
-			return http.StatusNotFound, nil
+			return http.StatusNotFound, d.NotFoundBody
 		}
 		return http.StatusOK, RenderState(d.Stream, d.Current, st, true)
 	}
@@ -316,7 +421,7 @@ func (p *Planet) answer(r *http.Request, path string) (int, []byte) {
 		p.seqSeen[n]++
 		st, ok := d.Get(n)
 		if !ok {
-			return http.StatusNotFound, nil
+			return http.StatusNotFound, d.NotFoundBody
 		}
 		if b, ok := p.bodies[n]; ok {
 			return http.StatusOK, b
@@ -331,7 +436,7 @@ func (p *Planet) answer(r *http.Request, path string) (int, []byte) {
 		}
 		b, ok := d.Data[n]
 		if !ok {
-			return http.StatusNotFound, nil
+			return http.StatusNotFound, d.NotFoundBody
 		}
 		return http.StatusOK, b
 	}
